@@ -239,15 +239,22 @@ theorem step_sim (hs : Sim I J Rel) {h : List (GCell β)} {g : List (GCell γ)} 
     subst e
     cases r <;> exact ⟨rfl, hr'⟩
   | newRef =>
-    have hr0 : HeapRel Rel (h ++ [freshCell I]) (g ++ [freshCell J]) := hr.append ⟨hs.fresh, rfl, rfl⟩
-    obtain ⟨e, hr'⟩ := addRefH_sim hr0 t h.length
-    simp only [step, ← hr.1]
-    rcases ha : addRefH (h ++ [freshCell I]) t h.length with ⟨r, h'⟩
-    rcases ha' : addRefH (g ++ [freshCell J]) t h.length with ⟨r', g'⟩
-    rw [ha, ha'] at e hr'
-    simp only at e hr'
-    subst e
-    cases r <;> exact ⟨rfl, hr'⟩
+    simp only [step]
+    cases hc : h[t]? with
+    | none => rw [hr.get_none hc]; exact ⟨rfl, hr⟩
+    | some c =>
+      obtain ⟨d, hd, _⟩ := hr.get hc
+      rw [hd]
+      have hr0 : HeapRel Rel (h ++ [freshCell I]) (g ++ [freshCell J]) := hr.append ⟨hs.fresh, rfl, rfl⟩
+      obtain ⟨e, hr'⟩ := addRefH_sim hr0 t h.length
+      simp only [← hr.1]
+      obtain ⟨r, h', ha⟩ : ∃ r h', addRefH (h ++ [freshCell I]) t h.length = (r, h') := ⟨_, _, rfl⟩
+      obtain ⟨r', g', ha'⟩ : ∃ r' g', addRefH (g ++ [freshCell J]) t h.length = (r', g') := ⟨_, _, rfl⟩
+      rw [ha, ha'] at e hr'
+      simp only at e hr'
+      subst e
+      simp only [ha, ha']
+      cases r <;> exact ⟨rfl, hr'⟩
   | nextRef =>
     obtain ⟨e, hr'⟩ := nextRefH_sim hs hr t
     simp only [step]
